@@ -1044,17 +1044,7 @@ func c18R5(c *Ctx) {
 				}
 			}
 		}
-		g.AddEdges(kit.CmpEdges(fn, func(b *ssa.BinOp) (bool, bool) {
-			if kit.IsLenOf(b.X, func(v ssa.Value) bool { return isFieldOfParam(v, "ceiling", "SecretRefs") }) && kit.IsIntConst(b.Y, 0) {
-				switch b.Op {
-				case token.GTR, token.NEQ:
-					return true, false
-				case token.EQL, token.LEQ:
-					return true, true
-				}
-			}
-			return false, false
-		}), "len(ceiling.SecretRefs)==0")
+		g.AddEdges(kit.LenEdges(fn, func(v ssa.Value) bool { return isFieldOfParam(v, "ceiling", "SecretRefs") }, 0, 0), "len(ceiling.SecretRefs)==0")
 		c.Dominated(r, "ResolvePolicy: SecretRefs intersected on every enabled return", enabledRets, g, "eff.SecretRefs = intersectRefs(perProcessor, ceiling) (or the ceiling grants none)")
 	}
 	// Allowlist stores
@@ -1070,17 +1060,7 @@ func c18R5(c *Ctx) {
 			}
 			switch {
 			case isFieldOfParam(s2.Val, "perProcessor", "Allowlist"):
-				g := kit.NewGates().AddEdges(kit.CmpEdges(fn, func(b *ssa.BinOp) (bool, bool) {
-					if kit.IsLenOf(b.X, func(v ssa.Value) bool { return isFieldOfParam(v, "ceiling", "Allowlist") }) && kit.IsIntConst(b.Y, 0) {
-						switch b.Op {
-						case token.EQL, token.LEQ:
-							return true, true
-						case token.NEQ, token.GTR:
-							return true, false
-						}
-					}
-					return false, false
-				}), "len(ceiling.Allowlist)==0")
+				g := kit.NewGates().AddEdges(kit.LenEdges(fn, func(v ssa.Value) bool { return isFieldOfParam(v, "ceiling", "Allowlist") }, 0, 0), "len(ceiling.Allowlist)==0")
 				c.Dominated(r, "ResolvePolicy: full allowlist only when the ceiling has none", []ssa.Instruction{s2}, g, "the len(ceiling.Allowlist)==0 edge")
 			case kit.IsNilConst(s2.Val):
 				c.R.Pass(r, "ResolvePolicy: allowlist reset to nil", c.Pos(s2.Pos()), "nil", false)
